@@ -19,8 +19,13 @@ SAN_ENV = {"ASAN_OPTIONS": "detect_leaks=0:allocator_may_return_null=1:exitcode=
            "UBSAN_OPTIONS": "print_stacktrace=1"}
 
 
+TRANSLATION_ERROR = None
+
+
 def regenerate():
-    kspaces_gen.regen_spaces()
+    """never raises for an extraction problem (./check --setup calls this too): the reason is kept for run() to report"""
+    global TRANSLATION_ERROR
+    TRANSLATION_ERROR = kspaces_gen.regen_spaces_safe()
     return ["Gen/Spaces.v"]
 
 
@@ -371,6 +376,7 @@ def run(ctx):
         elif model_broken:
             ctx.report("model-broken", "executable model no longer builds", {"log": model_broken[-2000:]}, found=False)
         ctx.report_proof(pres)
+    kspaces_gen.report_translation(ctx, TRANSLATION_ERROR)
     ctx.mismatches = mismatches
     return outs, meta
 
